@@ -178,10 +178,18 @@ def measure_variants():
                 lambda r: r.shape == (2,))
     x = odl.uniform_discr(0, 1, 3).one()
     boolouter = works(lambda: np.less.outer(x, x), lambda r: r.shape == (3, 3))
-    return {'grow': grow, 'negaxis': neg, 'boolouter': boolouter}
+    arrdt = works(lambda: np.asarray((odl.rn(2) ** 2).one(), dtype=float), lambda r: r.shape == (2, 2))
+    return {'grow': grow, 'negaxis': neg, 'boolouter': boolouter, 'arrdt': arrdt}
 
 
 VARIANTS = None
+
+
+def measure_variants_cached():
+    global VARIANTS
+    if VARIANTS is None:
+        VARIANTS = measure_variants()
+    return VARIANTS
 
 
 def variant_term():
@@ -1065,8 +1073,8 @@ def legacy2_cases(rng, tier):
                                     raise
                                 except Exception as e:   # noqa
                                     obs, summ = '(TErr %s)' % classify(e), classify(e)
-                                t = '(mkL2Case %s %s %s %s %s %s %s)' % (
-                                    BOPS[name], C.lst(['(%s, %s)' % (dt_term(dtype), dt_term(rd))]), C.b(with_out),
+                                t = '(mkL2Case %s %s %s %s %s %s %s %s)' % (
+                                    C.b(measure_variants_cached()['arrdt']), BOPS[name], C.lst(['(%s, %s)' % (dt_term(dtype), dt_term(rd))]), C.b(with_out),
                                     tree_term(X), x2t, obs, ref_t)
                             except Skip:
                                 continue
